@@ -118,8 +118,25 @@ int pthread_cond_signal(pthread_cond_t *c)
 }
 int pthread_cond_broadcast(pthread_cond_t *c) { __CPROVER_assert(c == &sched_cond && g_held_sched, "broadcast: scheduler condition inside its monitor"); g_bcast_sched++; return 0; }
 int g_threads_created, g_threads_joined;
-int pthread_create(pthread_t *t, const pthread_attr_t *a, void *(*f)(void *), void *arg) { int r; if (r == 0) { g_threads_created++; g_multi = 1; } return r; }
-int pthread_join(pthread_t t, void **rv) { g_threads_joined++; return 0; }
+int g_copy_check;
+int pthread_create(pthread_t *t, const pthread_attr_t *a, void *(*f)(void *), void *arg)
+{
+  int r;
+  if (g_copy_check && g_threads_created == 0)
+    __CPROVER_assert(!eof && in_slots == 2 && out_slots == 2 && total_out_slots == 2 && !request_close && !finish && output_q.size == 0,
+                     "copy(): before its threads start, end-of-input, the slot counters, the close/finish requests and the output queue are reset whatever earlier operands left");
+  if (r == 0) { g_threads_created++; g_multi = 1; }
+  return r;
+}
+int pthread_join(pthread_t t, void **rv)
+{
+  g_threads_joined++;
+  if (g_threads_joined == g_threads_created) {        /* every thread of the run has ended: single-threaded again */
+    g_multi = 0;
+    output_q.size = 0;                                 /* the writer ends only with the queue empty (process.sink_thread) and nobody can push any more */
+  }
+  return 0;
+}
 
 /* ---------------- objects and functions of other translation units */
 struct filespec ispec, ospec;
@@ -131,7 +148,17 @@ void failfx(const struct filespec *f, int x, const char *fmt, ...) { g_reporter_
 void failf(const struct filespec *f, const char *fmt, ...) { g_reporter_called = 1; __CPROVER_assume(0); }
 void failx(int x, const char *fmt, ...) { g_reporter_called = 1; __CPROVER_assume(0); }
 void *xmalloc(size_t n) { void *p = malloc(n); __CPROVER_assume(p != 0); g_malloced = p; g_malloc_size = n; return p; }
-void halt(void) { }
+int g_halt_calls;
+void halt(void)
+{
+  g_halt_calls++;
+  if (g_copy_check) {       /* copy(): what the pseudo process looks like while the main thread waits for it */
+    __CPROVER_assert(process->tasks->ready == 0 && process->finished == copy_terminate && process->on_block == copy_on_input_avail && process->on_written == copy_on_write_complete,
+                     "copy(): the pseudo process has no tasks, the copy callbacks and copy_terminate as its stop test");
+    __CPROVER_assert(total_out_slots == 2 && in_granul == 65536 && g_threads_created == 2, "copy(): two buffers of 64 KiB circulate between one reader and one writer thread");
+    __CPROVER_assert(0, "CANARY copy waits for completion");
+  }
+}
 void xraise(int sig) { __CPROVER_assert(sig == SIGUSR2, "only SIGUSR2 (normal completion) is raised from process.c"); g_sigusr2++; }
 int isatty(int fd) { int r; return r != 0; }
 struct timespec ts_now(void) { struct timespec t; return t; }
@@ -203,7 +230,7 @@ static void setup(void)
   g_signal_source = g_signal_sink = g_signal_sched = g_bcast_sched = 0; g_finished_calls = 0; g_finished_val = 0;
   g_task_ready[0] = g_task_ready[1] = g_task_ready[2] = 0; g_task_runs[0] = g_task_runs[1] = g_task_runs[2] = 0;
   g_malloced = 0; g_malloc_size = 0; g_sigusr2 = 0; g_fn = FN_OTHER; g_unlocks_source = 0; g_my_push = g_oth_push = 0; g_s_in_slots = 0; g_s_outq = 0;
-  g_prologue_only = g_prologue_ok = 0; g_threads_created = g_threads_joined = 0; g_rd_calls = g_wr_calls = 0; g_sched_calls = g_copy_calls = 0;
+  g_prologue_only = g_prologue_ok = 0; g_threads_created = g_threads_joined = 0; g_copy_check = 0; g_halt_calls = 0; g_rd_calls = g_wr_calls = 0; g_sched_calls = g_copy_calls = 0;
   eof = 0; request_close = 0; finish = 0; in_slots = 0; out_slots = 0; work_units = 0;
   g_multi = 1;
   g_my_in_slots = 0; g_iter_stop = 1; g_reporter_called = 0; g_rd_failed = 0; g_wr_failed = 0; g_rd_last = 1;
@@ -389,6 +416,19 @@ void h_init_io(void)
   V_ASSERT(output_q.size == 0 && output_q.modulus == cap && __CPROVER_OBJECT_SIZE(output_q.root) == cap * sizeof(struct block), "init_io(): the output queue starts empty with room for every output slot");
   V_ASSERT(g_threads_created == 2, "init_io(): the writer and the reader thread are started");
   V_CANARY("init_io");
+}
+
+
+/* ================= copy(): set-up of the -cdf pass-through (C19 O19.2, C18) ================= */
+static int g_copy_prologue_ok;
+void h_copy(void)
+{
+  setup(); g_iter_stop = 0; g_fn = FN_OTHER; g_multi = 0; g_copy_check = 1; g_halt_calls = 0;
+  { bool a, b, c; unsigned x, y, z; eof = a; request_close = b; finish = c; in_slots = x; out_slots = y; total_out_slots = z; }     /* leftovers of earlier operands */
+  { unsigned sz, hd; output_q.size = sz; output_q.head = hd; output_q.root = 0; }
+  copy();
+  V_ASSERT(g_halt_calls == 1 && g_threads_joined == 2, "copy(): waits for completion once, then joins both I/O threads");
+  V_CANARY("copy returns");
 }
 
 #ifdef VERIF_REPLAY
